@@ -171,6 +171,22 @@ def relocate_stream(rng, pid, kinds=ALL_KINDS):
     return out
 
 
+def long_chunk_stream(rng, pid):
+    """one-shot and buffered chunk pulls of several thousand positions over a wrapped iterator while other threads reserve single
+    positions at many different moments of the fill (a chunk is *one* reservation however long it is). Implementation only"""
+    out = []
+    L = 9000
+    for i, (first, at) in enumerate((("chunk 6000 all", 8200), ("chunk 5000 1", 4100), ("chunk 6000 all", 30), ("bufnew 6000 ; bufnext all", 8300),
+                                     ("chunk 8999 all", 12000))):
+        c = Case("%s-long%d" % (pid, i), "iter", script=["S%d" % (10000 + j) for j in range(L)], hint=rng.choice(["exact", "inexact"]), owner="drop")
+        c.threads = [first.split(" ; ") + ["next"], ["next", "next", "chunk 3 all"], ["next"]]
+        # thread 0 alone for `at` steps (somewhere inside its fill), then the others reserve, then everybody
+        c.sched = [0] * at + [1, 1, 1, 2, 2, 2, 1, 1]
+        c.tags = {"implonly", "nomodel"}
+        out.append(c)
+    return out
+
+
 def far_waiter_stream(rng, pid):
     """waiters *far behind* the turn: a chunk / buffered pull of 24-40 positions is in flight (and the wrapped iterator panics or ends
     somewhere inside it) while other threads have reserved positions behind it and wait"""
@@ -898,7 +914,7 @@ def stream_for0(pid, tier, seed):
     big = tier != "quick"
     if pid in ("C01", "C02", "C04"):
         return defects + pulls_stream(rng, tier, pid) + half_stream(rng, pid) + nth_stream(rng, pid) + liar_stream(rng, pid) + zst_stream(rng, pid) + pod_stream(rng, pid) + \
-            wrapper_nth_stream(rng, pid) + last_stream(rng, pid) + forget_stream(rng, pid) + relocate_stream(rng, pid) + stall_stream(rng, pid) + reenter_stream(rng, pid) + many_threads_stream(rng, pid)
+            wrapper_nth_stream(rng, pid) + last_stream(rng, pid) + forget_stream(rng, pid) + relocate_stream(rng, pid) + stall_stream(rng, pid) + reenter_stream(rng, pid) + many_threads_stream(rng, pid) + long_chunk_stream(rng, pid)
     if pid == "C03":
         cases = defects + pulls_stream(rng, tier, pid, prof=dict(loops=False, query=False, drain=0.2))
         cases += half_stream(rng, pid) + nth_stream(rng, pid) + liar_stream(rng, pid) + zst_stream(rng, pid) + pod_stream(rng, pid)
@@ -955,6 +971,15 @@ def stream_for0(pid, tier, seed):
             cases.append(c)
         cases += inflight_stream(rng, pid, tier)
         cases += overshoot_stream(rng, pid, tier)
+        # very long ranges: the end reported (by a skip or by pulls past it), then further skips, pulls and queries
+        j = 0
+        for (a, b) in [(0, MAXW), (5, (1 << 63) + 9), (0, (1 << 63) + 1), (1, 1 << 63)]:
+            for prog in (["skip", "next", "skip", "next", "hasmore", "len"], ["next", "skip", "chunk 3 all", "skip", "skip", "hasmore", "next", "len"]):
+                for nt in (1, 2):
+                    c = Case("C05-long%d" % j, "range", start=a, stop=b, threads=[list(prog) for _ in range(nt)], owner="drop")
+                    c.sched = rand_sched(rng, nt, 12)
+                    cases.append(c)
+                    j += 1
         return cases
     if pid == "C06":
         cases = defects + pulls_stream(rng, tier, pid, prof=dict(skip=True), n_random=1200 if not big else 50000, exh=False)
@@ -1126,7 +1151,14 @@ def stream_for0(pid, tier, seed):
         cases += droppanic_stream(rng, tier, pid) + wrapper_droppanic_stream(rng, pid) + inpanic_stream(rng, pid) + hintpanic_stream(rng, pid) + far_waiter_stream(rng, pid)
         return cases
     if pid == "C19":
-        return multi_stream(rng, tier) + [c for c in huge_then_skip_stream(rng, pid, clones=True) if c.kind in ("slice", "range", "vecref") and c.adapt == "none"]
+        # sources and chunks longer than u32::MAX: a clone taken after such a chunk starts where the original stands
+        longs = []
+        for i, (n, take) in enumerate(((1 << 33, "0"), ((1 << 32) + 5, "1"), (1 << 35, "0"))):
+            c = Case("C19-long%d" % i, "range", start=7, stop=7 + (1 << 36), owner="drop")
+            c.threads = [["next", "chunk %d %s" % (n, take), "clone 1", "len", "@1 len", "@1 next", "next", "@1 chunk 3 all", "clone 2", "@2 next"]]
+            c.tags = {"implonly", "nomodel"}
+            longs.append(c)
+        return longs + multi_stream(rng, tier) + [c for c in huge_then_skip_stream(rng, pid, clones=True) if c.kind in ("slice", "range", "vecref") and c.adapt == "none"]
     return defects + pulls_stream(rng, tier, pid)
 
 
